@@ -7,7 +7,7 @@ import ast
 
 from rules import fwd as R_fwd
 from rules.narrowint import NarrowInt
-from sa.astutil import call_name, u
+from sa.astutil import call_name, parent_map, u
 from sa.defuse import ReachingDefs
 from sa.model import AnalysisError, own_calls, own_nodes
 from sa.norm import Normalizer, padd, pstr
@@ -238,6 +238,48 @@ def run(ctx: Ctx):
             if any("vocab_size" in u(e) for e in ud.exprs) and any(
                     isinstance(x, ast.Name) and x.id == u(n.test.left) for r_ in retn if r_.value is not None for x in ast.walk(r_.value)):
                 okas = True
+    # the child counts are differences of adjacent offsets over one block of nodes [a, b): offsets[a+1:b] (+1) - offsets[a:b-1].
+    # Both windows must be the block shifted by one, and the block must end at a node boundary (the cursor / the end of the
+    # first level), not one short of it - else the last node's children are not counted and the kernel's window is too narrow
+    nzw = Normalizer()
+    nwin, badwin = 0, []
+    from sa.inline import Inliner as _InlW6
+    # cursors (names of the node-scan loop's test, and what is assigned to them) are the rule's vocabulary: they stay names
+    cursors = {x.id for w_ in own_nodes(infer.node) if isinstance(w_, ast.While) for x in ast.walk(w_.test) if isinstance(x, ast.Name)}
+    for st_ in own_nodes(infer.node):
+        if isinstance(st_, ast.Assign) and len(st_.targets) == 1 and isinstance(st_.targets[0], ast.Name) and st_.targets[0].id in cursors \
+                and isinstance(st_.value, ast.Name):
+            cursors.add(st_.value.id)
+    _inl_w6 = _InlW6(infer.node, rdi, keep={a.arg for a in infer.node.args.args} | cursors)
+    cands6, seen6 = [], set()
+    for st_ in own_nodes(infer.node):
+        if isinstance(st_, (ast.Assign, ast.AugAssign, ast.Return, ast.Expr)) and getattr(st_, "value", None) is not None:
+            for x in ast.walk(_inl_w6.expand(st_.value)):
+                if isinstance(x, ast.BinOp) and u(x) not in seen6:
+                    seen6.add(u(x))
+                    cands6.append(x)
+    for n in cands6:
+        if isinstance(n, ast.BinOp) and isinstance(n.op, ast.Sub) and isinstance(n.right, ast.Subscript) and isinstance(n.right.slice, ast.Slice):
+            lefts = [x for x in ast.walk(n.left) if isinstance(x, ast.Subscript) and isinstance(x.slice, ast.Slice) and u(x.value) == u(n.right.value)]
+            if len(lefts) != 1:
+                continue
+            s1, s2 = lefts[0].slice, n.right.slice
+            zero = ast.Constant(value=0)
+            lo1, hi1, lo2, hi2 = s1.lower or zero, s1.upper, s2.lower or zero, s2.upper
+            if hi1 is None or hi2 is None:
+                continue
+            nwin += 1
+            from sa.norm import const_of
+            dlo = const_of(padd(nzw.poly(lo1), nzw.poly(lo2), -1))
+            dhi = const_of(padd(nzw.poly(hi1), nzw.poly(hi2), -1))
+            ok_ = dlo == 1 and dhi == 1 and isinstance(hi1, ast.Name) and hi1.id in cursors and isinstance(lo2, (ast.Name, ast.Constant))
+            if not ok_:
+                badwin.append(n)
+    col.floor("adjacent_offset_windows", nwin, 1)
+    col.ob("G12", "S3", f"{W('_infer_max_direct_descendants')}::child-count-windows-cover-their-block", not badwin,
+           (f"`{u(badwin[0])[:90]}` is not offsets[a+1:b] - offsets[a:b-1] over a whole block of nodes [a, b): the children of the "
+            f"block's last node are not counted, max_direct_descendants is too small and listed n-grams ending in that token are "
+            f"silently backed off") if badwin else "", rel, badwin[0].lineno if badwin else infer.line, sample=nwin)
     col.ob("G23", "S3", f"{W('_infer_max_direct_descendants')}::asserts-S<U", okas,
            f"_infer_max_direct_descendants asserts {asserts}; the bound S < U justifies the kernel's window", rel, infer.line)
 
@@ -629,6 +671,37 @@ def _arpa_base_conversion(ctx: Ctx):
            f"normaliser: with to_base_e=True that column stays in base 10 while the other is natural", rel,
            bad[0][0].lineno if bad else f.line, sample=[u(n)[:90] for n, _ in stores])
     col.floor("arpa_number_stores", len(stores), 1)
+    # every number of an entry is determined by that entry's own line: a variable that the line loop (conditionally) re-assigns
+    # and that is stored into a table must not be reachable from a definition outside the loop body - else an entry that omits
+    # its back-off inherits the one of an earlier line
+    pm_f = parent_map(f.node)
+    stale = []
+    for n, comps in stores:
+        loop = pm_f.get(n)
+        while loop is not None and not isinstance(loop, (ast.For, ast.While)):
+            loop = pm_f.get(loop)
+        if loop is None:
+            continue
+        inside = {id(x) for st_ in loop.body for x in ast.walk(st_)}
+        for c in comps:
+            # every definition the stored value derives from (directly or through temporaries such as `value = (value, logb / norm)`),
+            # grouped by variable
+            byname = {}
+            for d in rd.derives(c).defs:
+                if d.kind == "assign" and getattr(d, "stmt", None) is not None:
+                    byname.setdefault(d.name, []).append(d)
+            for x in ast.walk(c):
+                if isinstance(x, ast.Name) and isinstance(x.ctx, ast.Load):
+                    for d in rd.defs_of(x):
+                        if d.kind == "assign" and getattr(d, "stmt", None) is not None and d not in byname.setdefault(d.name, []):
+                            byname[d.name].append(d)
+            for nm_, ds in byname.items():
+                if any(id(d.stmt) in inside for d in ds) and any(id(d.stmt) not in inside for d in ds):
+                    stale.append((n, nm_))
+    col.ob("G16", "S8", f"{rel}::parse_arpa_lm::entry-values-come-from-the-entry's-own-line", not stale,
+           (f"`{stale[0][1]}` is stored by `{u(stale[0][0])[:70]}` but can still hold a value assigned before the line loop / for an "
+            f"earlier line: an n-gram that omits its back-off weight (implicit 0) is stored with the previous entry's weight") if stale else "",
+           rel, stale[0][0].lineno if stale else f.line, sample=len(stores))
 
 
 def _mutants():
